@@ -102,7 +102,7 @@ Definition in_domain (ds : list docarg) (args : list arg) : bool :=
           let r2 := skipn (length (l_req l) + length (l_opt l)) args in
           match key_pairs (S (length r2)) r2 with
           | Some ps => forallb (fun p => existsb (fun kd => N.eqb (fst kd) (fst p)) ks) ps && no_dup_keys ps
-          | None => match r2 with AInt _ :: _ => true | _ => (length r2 <? 1) end    (* a non-keyword first: both reject *)
+          | None => match r2 with (AInt _ | ANil) :: _ => true | _ => (length r2 <? 1) end    (* a non-keyword first: both reject *)
           end
       end
   end.
@@ -111,7 +111,7 @@ Definition in_domain (ds : list docarg) (args : list arg) : bool :=
 Fixpoint list_eqb {A} (eqb : A -> A -> bool) (a b : list A) : bool :=
   match a, b with [], [] => true | x :: a', y :: b' => eqb x y && list_eqb eqb a' b' | _, _ => false end.
 Definition arg_eqb (a b : arg) : bool :=
-  match a, b with AInt x, AInt y => Z.eqb x y | AKw x, AKw y => N.eqb x y | _, _ => false end.
+  match a, b with AInt x, AInt y => Z.eqb x y | AKw x, AKw y => N.eqb x y | ANil, ANil => true | _, _ => false end.
 Definition value_eqb (a b : value) : bool :=
   match a, b with
   | VInt x, VInt y => Z.eqb x y | VKw x, VKw y => N.eqb x y | VList x, VList y => list_eqb arg_eqb x y
